@@ -103,10 +103,17 @@ theorem lua_store_nil_nan_is_error (t : Tbl) (v : OVal) (k : OVal) :
 
 /-- **next_complete** — iterating `Next` from nil on any table satisfying the representation
     invariant never panics, terminates, and visits exactly the present keys, each once, with its value. -/
-theorem next_complete (t : Tbl) (h : Inv t) :
+theorem next_complete (t : Tbl) (h : Inv t) (hm : 0 < t.mai) :
     ∃ l : List (Val × Val), traverse t = .ok l ∧ (l.map (·.1)).Nodup ∧
       ∀ k v, (k, v) ∈ l ↔ rawGet t k = some v :=
-  Table.traverse_complete t h
+  Table.traverse_complete t h hm
+
+/-- without `0 < MaxArrayIndex` the statement is false (with `MaxArrayIndex = 0` the initial `Next(nil)`
+    skips `keys[0]`); a degenerate configuration, recorded here as a machine-checked negation. -/
+theorem next_complete_fails_mai_zero :
+    ¬ (∀ t : Tbl, Table.Inv t → ∃ l : List (Val × Val), traverse t = .ok l ∧ (l.map (·.1)).Nodup ∧
+      ∀ k v, (k, v) ∈ l ↔ rawGet t k = some v) :=
+  Table.traverse_complete_fails_mai_zero
 
 /-- the representation invariant holds for every table built by any history of stores and list helpers. -/
 theorem inv_reachable (mai : Nat) (ops : List StoreOp) (h : ∀ o ∈ ops, o.wf mai) :
